@@ -87,10 +87,43 @@ def effects_of(fi) -> List[tuple]:
         if isinstance(n, ast.Name) and isinstance(n.ctx, ast.Store):
             first_store[n.id] = min(first_store.get(n.id, 10 ** 9), n.lineno)
 
+    # locals that alias caller-visible state: bound exactly once, to a part of a parameter / free variable / other alias taken by attribute,
+    # subscript or `.get(...)` (no copy in between): `record = graph_state.aux.get("record")` -> mutating `record.nodes` mutates the argument
+    binds: Dict[str, list] = {}
+    for n in _own(fn):
+        if isinstance(n, ast.Assign) and len(n.targets) == 1 and isinstance(n.targets[0], ast.Name):
+            binds.setdefault(n.targets[0].id, []).append(n)
+        elif isinstance(n, ast.AnnAssign) and isinstance(n.target, ast.Name) and n.value is not None:
+            binds.setdefault(n.target.id, []).append(n)
+        elif isinstance(n, ast.Name) and isinstance(n.ctx, ast.Store):
+            binds.setdefault(n.id, []).append(None)
+    alias_of: Dict[str, str] = {}
+
+    def _part_root(e):
+        while True:
+            if isinstance(e, (ast.Attribute, ast.Subscript)):
+                e = e.value
+            elif isinstance(e, ast.Call) and isinstance(e.func, ast.Attribute) and e.func.attr == "get":
+                e = e.func.value
+            else:
+                break
+        return e.id if isinstance(e, ast.Name) else None
+    for _ in range(3):
+        for name, bs in binds.items():
+            real = [b for b in bs if b is not None]
+            if name in alias_of or name in params or len(real) != 1 or len(bs) != 2 or isinstance(real[0].value, ast.Name):
+                continue  # (bs holds the Assign and the Store of its own target: exactly one binding)
+            root = _part_root(real[0].value)
+            if root is not None and (root in params or root in alias_of or (root not in local)) and not isinstance(real[0].value, ast.Call) or \
+                    (root is not None and isinstance(real[0].value, ast.Call) and (root in params or root in alias_of)):
+                alias_of[name] = root
+
     def outside(b, lineno) -> bool:
         """True if name b still denotes caller-visible state at this line (a parameter not yet rebound, or a free variable)."""
         if b in params:
             return lineno <= first_store.get(b, 10 ** 9)
+        if b in alias_of and lineno > first_store.get(b, 0):
+            return True
         return b not in local
 
     out = []
@@ -181,6 +214,20 @@ def rule_purity(chk: Check, model, rid: str):
 
 def rule_composition(chk: Check, model, rid: str, cv: CompiledView):
     rule_api(chk, model, rid, "graph.Graph", has_start=False)
+    # the step state every API hands to (or steps) the supervisor with is assembled from the graph state, field by field: the per-node tables
+    # by node name, the episode from the graph state itself (what init() was given is what that step sees)
+    f_gi = model.func("base._StepStateDict.__getitem__")
+    rgi = SymEval(model).run_function(f_gi)
+    ss = rgi.ret
+    okg = ss[0] == "obj" and ss[1] == "StepState"
+    if okg:
+        f_ = dict(ss[2])
+        gs_ = S("self.graph_state")
+        okg = f_.get("eps") == T.mk_attr(gs_, "eps")
+        for k in ("rng", "seq", "ts", "params", "state", "inputs"):
+            tbl = T.mk_attr(gs_, k)
+            okg = okg and f_.get(k) == T.mk_ite(T.eq(tbl, T.NONE, numeric=False), T.NONE, T.mk_call(T.mk_attr(tbl, "get"), [S("item"), T.NONE]))
+    chk.add(rid, "step_state[name] = the node's entries of the graph state, eps = graph_state.eps", bool(okg), f"_StepStateDict.__getitem__ returns {T.show(ss)[:240]}", chk.loc(f_gi))
     # run_until_supervisor is exactly the partition runner
     fi = model.func("graph.Graph.run_until_supervisor")
     ev = SymEval(model)
